@@ -135,6 +135,31 @@ def _no_fixed_point_default_quiet(repo: Repo) -> bool:
         return False
 
 
+def abstract_hook(repo: Repo, func: str) -> bool:
+    """`raise NotImplementedError` in method M of class C: unreachable when neither C nor any subclass that inherits
+    C's M is ever instantiated in the package (every constructor call names a class that overrides M)."""
+    rel, qual = func.split("::", 1)
+    if "." not in qual:
+        return False
+    cname, mname = qual.split(".", 1)
+    if "." in mname:
+        return False
+    inherits = {cname}
+    for sub in repo.subclasses(cname):
+        r = repo.resolve_method(sub, mname)
+        if r is not None and r[1] == cname:
+            inherits.add(sub)
+    for r2 in repo.py_files:
+        for n in ast.walk(repo.mod(r2).tree):
+            if isinstance(n, ast.Call):
+                callee = ast.unparse(n.func).split(".")[-1]
+                if callee in inherits:
+                    return False
+    # (`self.__class__(...)` / `type(self)(...)` in a method of these classes builds the *runtime* class: an instance
+    # exists only of a class some constructor call names, and none of those inherits the hook)
+    return True
+
+
 def referenced_only_under_flag(repo: Repo, func: str, flag: str) -> bool:
     """Every reference to the function (call or address taken, anywhere in the package) lies on the true side of a
     test - an `if` statement or a conditional expression - that reads the attribute `flag`, not negated: the
@@ -346,6 +371,9 @@ def run_entry(check: Check, repo: Repo, entry: str, allowed: set[str], rule: str
             # rules of the grammar and over grammars whose references are defined (the same reason as the triage
             # entries for Parser.parse / Identifier.parse, stated for the construct instead of for one spelling)
             check.oblige(rule, site.func, f"{site.expr}: a rule looked up by name; unknown start rules and undefined references are outside the property's quantifier", True)
+            continue
+        if site.exc == "NotImplementedError" and site.kind == "raise" and abstract_hook(repo, site.func):
+            check.oblige(rule, site.func, "raise NotImplementedError in a hook that every class the package instantiates overrides (the class that holds it is never instantiated itself)", True)
             continue
         tri = TRIAGE.get(site.key())
         stale = None
